@@ -23,7 +23,23 @@ def main(argv):
         return 2
     try:
         if "--replay" in argv:
-            return mod.replay(argv[argv.index("--replay") + 1])
+            # a replay file names one violation of one deterministic run (property, tier, seed, signature): the same
+            # run is made again and only that signature is looked for; evidence of a replay goes to a scratch place
+            import json
+            import tempfile
+            with open(argv[argv.index("--replay") + 1], encoding="utf-8") as f:
+                rec = json.load(f)
+            if rec.get("property") != pid:
+                print(f"replay file is for {rec.get('property')}, not {pid}")
+                return 2
+            tier = rec.get("tier", tier)
+            os.environ["VERIF_TIER"] = tier
+            os.environ["VERIF_SEED"] = str(rec.get("seed", 0))
+            os.environ["VERIF_ONLY_SIGNATURE"] = rec["signature"]
+            os.environ.setdefault("VERIF_EVIDENCE_DIR", tempfile.mkdtemp(prefix="verif-replay-evidence-"))
+            rc = mod.main(tier)
+            print(f"REPLAY property={pid} signature={rec['signature']!r}: " + ("still violated" if rc == 1 else "not reproduced"))
+            return rc
         return mod.main(tier)
     except SystemExit as e:
         # drivers RETURN their verdict; an exit raised underneath them (e.g. the implementation's Q element run
